@@ -415,7 +415,11 @@ def _x86_returns(ctx, f, flow, pa, pb, tname, vcls, spec):
         facts = [(U(e), pol) for e, pol in C.norm_fact_nodes(r)]
         pos = {t for t, pol in facts if pol}
         fam = None
-        if {"%s == %s" % (A, B)} & pos or {"%s == %s" % (B, A)} & pos:
+        inplace_same = any(pol and isinstance(e, ast.Compare) and len(e.ops) == 1 and isinstance(e.ops[0], ast.Eq)
+                           and _has_fold(e.left) and _has_fold(e.comparators[0])
+                           and {_strip_fold(e.left), _strip_fold(e.comparators[0])} == {pa + ".name", pb + ".name"}
+                           for e, pol in C.norm_fact_nodes(r))
+        if {"%s == %s" % (A, B)} & pos or {"%s == %s" % (B, A)} & pos or inplace_same:
             fam = "same name"
         elif ({"self.is_vector_register(%s)" % pa, "self.is_vector_register(%s)" % pb} <= pos
               and ("%s[1:] == %s[1:]" % (A, B) in pos or "%s[1:] == %s[1:]" % (B, A) in pos)):
